@@ -98,6 +98,16 @@ ZOO = [
     "int f52(void) { int x = sizeof(int) * 2; int y = (int)sizeof(int) * 2; int z = sizeof(int[3]); return x + y + z; }",
     "void f53(void) { struct L { int v; } l; enum { LA, LB } le = LA; union { int a; } lu; l.v = le; lu.a = l.v; }",
     "int f54(int a) { lbl: switch (a) { default: a = 0; case 0: lbl2: a++; } return a; }",
+    "int e0[] = {}; struct E2 {} e2, *pe2; union U0 {};",
+    "enum E1 { A1, B1 } a1, b1[2]; struct SD { int a; } sx, *sy, sz[2]; typedef union UD { int i; } UD, *PUD;",
+    "struct flags { unsigned ready : 3, count; int mode : 1, : 0, *next, pad : 4; int tail; };",
+    "void fa(int *[2][3]); int sb = sizeof(int *[2][3]); char *const *(*pc)[2][3];",
+    "inline _Noreturn void in1(void); _Noreturn inline void in2(void); _Thread_local static int ts1; _Thread_local extern int ts2;",
+    "int fr(int a, int b, int c, int d, int e) { return a ? b : c ? d : e; } int fs(int x) { return - --x + + ++x; }",
+    "int ft(int r) { switch (r) { case 3: case 4: case 5: r = 20; r += 2; break; default: ; } return r; }",
+    "void fu(int a) { if (a) a = 1; else\n#pragma p\n a = 2; a = 3; L0: 0; L1: 'q'; L2: \"s\"; }",
+    "typedef int TT2; void fw(TT2); void fx(int (TT2)); void fy(const TT2 *, TT2 (*)(TT2)); struct SW { TT2 TT2; int x; };",
+    "int fz(void) { return sizeof (int){1} + (int[]){1, 2}[0] + ((struct P2){ .x = 1 }).x; } struct P2 { int x; };",
     "extern int ext1; extern int extf(void); static int sf(void) { return ext1; } auto_ok() { auto int a = 1; register int r = 2; return a + r; }",
 ]
 
